@@ -8,24 +8,26 @@ From SV Require Import Common.Int32 C02.Kernels C02deep.Syntax C02deep.Sem C02de
 Open Scope Z_scope.
 
 (* ------------------------------------------------------------------ congruence modulo 2^32 *)
-Definition eq32 (a b : Z) : Prop := wrap32 a = wrap32 b.
-Lemma eq32_refl a : eq32 a a. Proof. reflexivity. Qed.
-Lemma eq32_sym a b : eq32 a b -> eq32 b a. Proof. unfold eq32; congruence. Qed.
-Lemma eq32_trans a b c : eq32 a b -> eq32 b c -> eq32 a c. Proof. unfold eq32; congruence. Qed.
+(* an inductive wrapper, so that `rewrite` treats it as a setoid relation and not as the underlying equation *)
+Inductive eq32 (a b : Z) : Prop := eq32_intro : wrap32 a = wrap32 b -> eq32 a b.
+Lemma eq32_wrap_eq a b : eq32 a b -> wrap32 a = wrap32 b. Proof. now intros []. Qed.
+Lemma eq32_refl a : eq32 a a. Proof. now constructor. Qed.
+Lemma eq32_sym a b : eq32 a b -> eq32 b a. Proof. intros []. now constructor. Qed.
+Lemma eq32_trans a b c : eq32 a b -> eq32 b c -> eq32 a c. Proof. intros [] []. constructor. congruence. Qed.
 #[export] Instance eq32_equiv : Equivalence eq32.
 Proof. split; [exact eq32_refl | exact eq32_sym | exact eq32_trans]. Qed.
 
 Lemma eq32_wrap a : eq32 (wrap32 a) a.
-Proof. unfold eq32. apply wrap32_idem. Qed.
+Proof. constructor. apply wrap32_idem. Qed.
 
 #[export] Instance eq32_add : Proper (eq32 ==> eq32 ==> eq32) Z.add.
 Proof.
-  intros a a' Ha b b' Hb. unfold eq32 in *.
+  intros a a' [Ha] b b' [Hb]. constructor.
   rewrite <- (wrap32_add_l a b), <- (wrap32_add_r (wrap32 a) b), Ha, Hb, wrap32_add_r, wrap32_add_l. reflexivity.
 Qed.
 #[export] Instance eq32_mul : Proper (eq32 ==> eq32 ==> eq32) Z.mul.
 Proof.
-  intros a a' Ha b b' Hb. unfold eq32 in *.
+  intros a a' [Ha] b b' [Hb]. constructor.
   rewrite <- (wrap32_mul_l a b), <- (wrap32_mul_r (wrap32 a) b), Ha, Hb, wrap32_mul_r, wrap32_mul_l. reflexivity.
 Qed.
 #[export] Instance eq32_opp : Proper (eq32 ==> eq32) Z.opp.
@@ -36,11 +38,11 @@ Qed.
 Proof. intros a a' Ha b b' Hb. unfold Z.sub. now rewrite Ha, Hb. Qed.
 
 Lemma eq32_in32 a b : in32 a -> in32 b -> eq32 a b -> a = b.
-Proof. unfold eq32. intros Ha Hb. now rewrite !wrap32_id. Qed.
-Lemma eq32_wrap_eq a b : eq32 a b -> wrap32 a = wrap32 b. Proof. exact (fun H => H). Qed.
+Proof. intros Ha Hb [H]. now rewrite !wrap32_id in H. Qed.
+Lemma eq32_eq a b : a = b -> eq32 a b. Proof. intros ->. reflexivity. Qed.
 
 (* strip every wrap32 inside a goal `eq32 _ _` and finish with ring *)
-Ltac eq32_ring := repeat rewrite eq32_wrap; match goal with |- eq32 ?a ?b => replace a with b by ring; reflexivity end.
+Ltac eq32_ring := repeat rewrite eq32_wrap; apply eq32_eq; ring.
 
 (* ------------------------------------------------------------------ values *)
 Definition pv (w : world) (en : env) (p : pli) : Z := eval w en (pli_expr p).
@@ -92,6 +94,10 @@ Section Exec.
   Lemma binders_bin_flex x op a b : binders (bin_flex x op a b) = [x].
   Proof. unfold bin_flex. now destruct (flex_unwrapped op a b) as [[? ?] ?]. Qed.
 End Exec.
+
+Lemma exec_block_single m w fuel s en tr :
+  exec_block m w fuel [s] en tr = exec m w fuel s en tr.
+Proof. rewrite exec_block_cons. destruct (exec m w fuel s en tr); reflexivity. Qed.
 
 (* ------------------------------------------------------------------ lookups *)
 Lemma lookup_cons_eq x v en : lookup x ((x, v) :: en) = v.
